@@ -39,6 +39,9 @@ func coreC06(tier string) []RunSpec {
 	for k := 0; k < 8; k++ {
 		out = append(out, RunSpec{Profile: "core:url-mutants", Params: map[string]int{"url": 1, "k": k}})
 	}
+	for k := 0; k < 16; k++ {
+		out = append(out, RunSpec{Profile: "core:racing-reject", Params: map[string]int{"rr": 1, "k": k}})
+	}
 	return out
 }
 
@@ -416,6 +419,83 @@ func c06BackendFailure(rc *RunCtx, m *MW, snapshot func() string, i int) {
 }
 
 // c06URLMutants: garbage in the path parameters of the GET endpoints and in the method segment.
+// c06RacingReject: a valid request and one or two conflicting requests (same paid quote, other
+// outputs) run concurrently. Whoever is answered with an error must not have changed anything: once
+// one request succeeded the quote is ISSUED and stays so, and the stored signatures are exactly
+// the winner's.
+func c06RacingReject(rc *RunCtx, m *MW, i int) {
+	W, T := rc.W, rc.T
+	ks := W.ActiveKeyset("A")
+	n := 2 + T.Choose("rr.n", 2)
+	rc.Op(fmt.Sprintf("racing-reject mint x%d", n))
+	var mq *MintQuote
+	rc.Quietly(func() {
+		a := NewActor(W, fmt.Sprintf("s%d.rr", i))
+		mq, _ = a.ReqMintQuote("A", 16, false)
+		if mq != nil {
+			W.LN.PayExternal(mq.Hash)
+		}
+	})
+	if mq == nil {
+		return
+	}
+	ok := make([]bool, n)
+	answered := make([]bool, n)
+	outs := make([][]*HOutput, n)
+	rc.S.BeginEpisode()
+	for k := 0; k < n; k++ {
+		k := k
+		outs[k] = W.NewOutputs(Split(16), ks.ID)
+		name := fmt.Sprintf("s%d.rr%d", i, k)
+		rc.S.Go(name, W.Ext, true, func() {
+			a := NewActor(W, name)
+			ps, r := a.Mint("A", mq, outs[k], "")
+			answered[k] = r.Err == nil
+			if r.OK() {
+				ok[k] = true
+				m.User.Purse["A"] = append(m.User.Purse["A"], ps...)
+			}
+		})
+	}
+	rc.S.Drive(false)
+	wins, errs := 0, 0
+	for k := range ok {
+		if ok[k] {
+			wins++
+		} else if answered[k] {
+			errs++
+		}
+	}
+	rc.S.Probe("c06_racing_reject")
+	if wins == 0 || errs == 0 {
+		return
+	}
+	rc.Nontrivial = true
+	var st, state string
+	var signed int
+	rc.Quietly(func() {
+		a := NewActor(W, fmt.Sprintf("s%d.rrq", i))
+		r := a.PollMintQuote("A", mq.ID)
+		state = RespState(r)
+		st = r.String()
+		for k := range outs {
+			if ok[k] {
+				continue
+			}
+			rr := a.Restore("A", outs[k])
+			if sg, _ := rr.Body["signatures"].([]any); rr.OK() {
+				signed += len(sg)
+			}
+		}
+	})
+	if state != "ISSUED" {
+		W.Book.Violate("C06.changed_state", "mint|race", "%d concurrent mint requests for one paid quote: %d succeeded, %d were answered with an error, and afterwards the quote is %q (%s) instead of ISSUED: a rejected request changed the quote", n, wins, errs, state, st)
+	}
+	if signed > 0 {
+		W.Book.Violate("C06.changed_state", "mint|race-sigs", "a mint request that was answered with an error left %d stored signatures behind", signed)
+	}
+}
+
 func c06URLMutants(rc *RunCtx, m *MW, snapshot func() string, i int) {
 	W := m.W
 	T := rc.T
@@ -487,8 +567,12 @@ func runC06(rc *RunCtx) {
 		if !hasOp && T.Chance("bg", 1, 2) {
 			m.Step(T.Pick("bg.kind", 1, 3, 2, 0, 1, 0, 0, 1, 1), false)
 		}
-		if (!hasOp && T.Chance("urlmutant", 1, 6)) || rc.P("url", 0) == 1 {
+		if (!hasOp && rc.P("rr", 0) == 0 && T.Chance("urlmutant", 1, 6)) || rc.P("url", 0) == 1 {
 			c06URLMutants(rc, m, snapshot, i)
+			return
+		}
+		if (!hasOp && T.Chance("racingreject", 1, 6)) || rc.P("rr", 0) == 1 {
+			c06RacingReject(rc, m, i)
 			return
 		}
 		if (!hasOp && T.Chance("backendfail", 1, 5)) || rc.P("bf", 0) == 1 {
